@@ -32,25 +32,25 @@ ENV = dict(os.environ, CARGO_NET_OFFLINE="true")
 # (the property's own observables), so that unrelated behaviour does not raise this alarm.
 PROPS = {
     "C06": dict(quick=3000, thorough=1440000, events=None, runs_thorough=112),
-    "C07": dict(quick=4000, thorough=1920000, events=None, runs_thorough=112),
-    "C01": dict(quick=4000, thorough=2880000, events=None, runs_thorough=112),
-    "C02": dict(quick=4000, thorough=2880000, events=None, runs_thorough=112),
-    "C03": dict(quick=4000, thorough=2880000, events=None, runs_thorough=112),
-    "C15": dict(quick=4000, thorough=2880000, events=None, runs_thorough=112),
-    "C04": dict(quick=6000, thorough=3840000, events=None, runs_thorough=112),
-    "C05": dict(quick=6000, thorough=3840000, events=None, runs_thorough=112),
-    "C08": dict(quick=6000, thorough=3840000, events=None, runs_thorough=112),
-    "C13": dict(quick=6000, thorough=3840000, events=None, runs_thorough=112),
-    "C14": dict(quick=6000, thorough=3840000, events=None, runs_thorough=112),
-    "C17": dict(quick=6000, thorough=3840000, events=None, runs_thorough=112),
-    "C18": dict(quick=6000, thorough=3840000, events=None, runs_thorough=112),
-    "C19": dict(quick=6000, thorough=3840000, events=None, runs_thorough=112),
-    "C20": dict(quick=6000, thorough=3840000, events=None, runs_thorough=112),
-    "C11": dict(quick=5000, thorough=3600000, events=None, runs_thorough=112),
-    "C12": dict(quick=5000, thorough=3600000, events=None, runs_thorough=112),
-    "C16": dict(quick=5000, thorough=3600000, events=None, runs_thorough=112),
-    "C09": dict(quick=5000, thorough=3600000, events=None, runs_thorough=112),
-    "C10": dict(quick=5000, thorough=3600000, events=None, runs_thorough=112),
+    "C07": dict(quick=7000, thorough=1920000, events=None, runs_thorough=112),
+    "C01": dict(quick=7000, thorough=2880000, events=None, runs_thorough=112),
+    "C02": dict(quick=7000, thorough=2880000, events=None, runs_thorough=112),
+    "C03": dict(quick=7000, thorough=2880000, events=None, runs_thorough=112),
+    "C15": dict(quick=7000, thorough=2880000, events=None, runs_thorough=112),
+    "C04": dict(quick=12000, thorough=3840000, events=None, runs_thorough=112),
+    "C05": dict(quick=12000, thorough=3840000, events=None, runs_thorough=112),
+    "C08": dict(quick=12000, thorough=3840000, events=None, runs_thorough=112),
+    "C13": dict(quick=12000, thorough=3840000, events=None, runs_thorough=112),
+    "C14": dict(quick=12000, thorough=3840000, events=None, runs_thorough=112),
+    "C17": dict(quick=12000, thorough=3840000, events=None, runs_thorough=112),
+    "C18": dict(quick=12000, thorough=3840000, events=None, runs_thorough=112),
+    "C19": dict(quick=12000, thorough=3840000, events=None, runs_thorough=112),
+    "C20": dict(quick=12000, thorough=3840000, events=None, runs_thorough=112),
+    "C11": dict(quick=9000, thorough=3600000, events=None, runs_thorough=112),
+    "C12": dict(quick=9000, thorough=3600000, events=None, runs_thorough=112),
+    "C16": dict(quick=9000, thorough=3600000, events=None, runs_thorough=112),
+    "C09": dict(quick=9000, thorough=3600000, events=None, runs_thorough=112),
+    "C10": dict(quick=9000, thorough=3600000, events=None, runs_thorough=112),
 }
 
 # Surface obligations (Axelar/Proofs/Surface<Contract>.lean): the regenerated table of entry points,
@@ -69,7 +69,7 @@ SURFACE_THEOREMS = {
     _GW: ["gateway_surface", "gateway_storage_no_alias", "gateway_state_changes_only_through_surface"],
     _GS: ["gasService_surface", "gasService_storage_no_alias"],
     _GOV: ["governance_surface", "governance_storage_no_alias"],
-    _TM: ["tokenManager_surface", "tokenManager_storage_no_alias"],
+    _TM: ["tokenManager_surface", "tokenManager_storage_no_alias", "tokenManager_effects_only_through_surface"],
     _ITS: ["its_surface", "its_storage_no_alias"],
 }
 
